@@ -599,7 +599,7 @@ func (m *sysMonitors) atEnd() {
 	for _, p := range w.pods() {
 		if ref := metav1.GetControllerOf(p); ref != nil {
 			if x, ok := m.jobs[ref.Name]; ok && x.envelopeBroken && w.job(ref.Name) == nil {
-				orphan[p.Name] = true // known finding F-C20-1, judged in its own scenario
+				orphan[p.Name] = true // outside E-OrphanVisible (unrecorded task not in the pod cache at the finalizer pass)
 				continue
 			}
 		}
